@@ -973,8 +973,12 @@ pub fn run(args: &[String]) -> i32 {
             let force_full = op["full"].as_bool().unwrap_or(false)
                 || matches!(name, "create" | "open" | "open_ro" | "commit" | "vacuum" | "doctor" | "commit_skip" | "finalize" | "ticket");
             let obs = ctx.observe(force_full);
-            let ev = json!({"ev": name, "run": sid, "n": n + 1, "args": op, "res": res, "x": extra,
-                            "nfid_before": nfid_before, "obs": obs});
+            let mut ev = json!({"ev": name, "run": sid, "n": n + 1, "args": op, "res": res, "x": extra,
+                                "nfid_before": nfid_before, "obs": obs});
+            if std::env::var("MVH_FILE_DIGEST").is_ok() {
+                // C23: digest of the file's bytes after the call (kept outside `obs`, which is compared logically)
+                ev["fdigest"] = json!(std::fs::read(&ctx.path).map(|b| hex(blake3::hash(&b).as_bytes())).unwrap_or_default());
+            }
             writeln!(out, "{}", crate::util::strip_nulls(ev)).unwrap();
         }
         if let Ok(rp) = std::env::var("MVH_REGISTRY_OUT") {
